@@ -269,7 +269,7 @@ GReorg ==
 (* out-of-protocol calls: all must be rejected without effect (C05) *)
 GBad ==
   /\ Started
-  /\ \E kind \in {RandomElement({"idx", "ts", "hash", "oldhash", "count", "commit", "reorg", "mine", "both", "none", "finhash"})} :
+  /\ \E kind \in {RandomElement({"idx", "ts", "hash", "oldhash", "count", "commit", "reorg", "mine", "both", "none", "finhash", "inith", "inith"})} :
        LET tx == Tx("call", CHOOSE s \in Senders : TRUE, "dead", NULL, <<Sstore(1, 1)>>, NoLc, "ample")
            base == [op |-> "tx", via |-> "call", from |-> tx.from, to |-> "dead", ckind |-> NULL, ops |-> tx.ops,
                     lc |-> NoLc, insc |-> ITok(ctr.i), idx |-> cur.n, hash |-> CurHash, ts |-> CurTs,
@@ -285,6 +285,7 @@ GBad ==
              [] kind = "mine" -> cur.n > 0 /\ Push([op |-> "mine", k |-> 1, ts |-> CurTs])
              [] kind = "both" -> Push([base EXCEPT !.enc = "both"])
              [] kind = "none" -> Push([base EXCEPT !.enc = "none"])
+             [] kind = "inith" -> cur.n = 0 /\ Push([op |-> "init", hash |-> HTok(ctr.h), ts |-> CurTs, height |-> NextH + 2])
   /\ Reject
   /\ Bump("i")
 
